@@ -10,6 +10,7 @@ var commands = map[string]func([]string){
 	"c11": runC11,
 	"c15": runC15,
 	"c17": runC17,
+	"c18": runC18,
 }
 
 func main() {
